@@ -43,10 +43,10 @@ def run_frame(part, h, w, how):
 
     s = Solver()
     case = {"frame": [h, w], "built": how}
-    if how == "default":
+    if how.startswith("default"):
         pad = s.bool_array(3)  # ids do not start at 0
         fr = BoolGridFrame(s, h, w)
-    elif how == "explicit":
+    elif how.startswith("explicit"):
         ver = s.bool_array((h, w + 1))
         pad = s.bool_array(2)
         hor = s.bool_array((h + 1, w))
@@ -56,7 +56,23 @@ def run_frame(part, h, w, how):
             return
     else:  # as the dual of an inner frame
         inner = BoolInnerGridFrame(s, h + 1, w + 1)
+        if "+rebound" in how:
+            inner.dual()
+            list(inner)
+            inner.horizontal = s.bool_array(tuple(inner.horizontal.shape))
+            inner.vertical = s.bool_array(tuple(inner.vertical.shape))
         fr = inner.dual()
+    if "+rebound" in how and not how.startswith("dual-of-inner"):
+        # the frame object is used first (dual, iteration, inferred graph, a loop constraint), then the caller replaces its
+        # public edge arrays by new ones of the right shape: every accessor must speak about the new variables from now on
+        for use in (lambda: fr.dual(), lambda: fr.dual().dual(), lambda: list(fr), lambda: graph._from_grid_frame(fr), lambda: fr.single_loop(),
+                    lambda: graph.active_edges_single_path(s, fr, use_graph_primitive=True)):
+            try:
+                use()
+            except Exception:
+                pass
+        fr.vertical = s.bool_array((h, w + 1))
+        fr.horizontal = s.bool_array((h + 1, w))
     V = lambda key, detail: part.violation(key, dict(case), detail)  # noqa: E731
     part.count("evaluations")
     if fr.height != h or fr.width != w or tuple(fr.horizontal.shape) != (h + 1, w) or tuple(fr.vertical.shape) != (h, w + 1):
@@ -298,7 +314,7 @@ def worker(shard, part):
 
 def main(tier, seed, only=None):
     top = 3 if tier == "quick" else 5
-    shards = [(h, w, how) for h in range(0, top + 1) for w in range(0, top + 1) for how in ("default", "explicit", "dual-of-inner")]
+    shards = [(h, w, how) for h in range(0, top + 1) for w in range(0, top + 1) for how in ("default", "explicit", "dual-of-inner", "default+rebound", "dual-of-inner+rebound")]
     # scale family: the same complete coordinate sweep on frames with more than 256 / 4096 segments and rows wider than 32
     for (h, w) in ([(16, 17), (1, 300), (33, 2)] if tier == "quick" else [(16, 17), (1, 300), (300, 1), (33, 2), (2, 40), (45, 45), (64, 33)]):
         shards.append((h, w, "default"))
@@ -309,7 +325,7 @@ def main(tier, seed, only=None):
         shards.append(("loops", h, w))
     run = harness.Run(
         PID, tier, seed, "exploration",
-        "BoolGridFrame with h, w in 0..%d (plus large frames 16x17, 1x300, 33x2; thorough 45x45, 64x33), built by default, from explicit arrays, and as the dual of a BoolInnerGridFrame; __getitem__ at "
+        "BoolGridFrame with h, w in 0..%d (plus large frames 16x17, 1x300, 33x2; thorough 45x45, 64x33), built by default, from explicit arrays, as the dual of a BoolInnerGridFrame, and with the public edge arrays replaced by the caller after the frame had been used (dual, iteration, inferred graph, loop constraints); __getitem__ at "
         "every doubled coordinate in [-2,2h+2]x[-2,2w+2]; cell_neighbors / vertex_neighbors at every coordinate in [-1,h+1]x[-1,w+1] in both call "
         "forms; all_edges, iteration, graph._from_grid_frame, dual(), dual().dual(); histories: pairs / triples of frames whose shapes collide under a packed key h*K+w for K in 10..1000 (thorough 4096), handled back to back in one process; loop constraints (single cycle aux / native / single_loop(), single path, crossable cycle / path) posted on frames up to 2x3 (thorough 3x4): the edge sets the accessors return for each cell, each segment and each pair of segments at a lattice point are imposed and must be admitted with the visited-point array forced to the geometry.  Reference model: segment = pair of lattice points -> "
         "variable id.  Non-trivial = distinct (frame, construction) fully checked." % top,
